@@ -2,7 +2,7 @@
    Only ExtrOcamlBasic is used (bool, option, unit, list, prod, sumbool, sumor
    mapped to OCaml's); N, positive, Z, nat stay the extracted inductive types. *)
 From Coq Require Import ExtrOcamlBasic.
-From XD Require Import Model.Base Model.Ellipsis Model.Checker Model.Parser Model.Text Model.Directive Model.RunLoop Model.Runner Model.Collect Model.FS Spec.ImportResolve Model.Proc.
+From XD Require Import Model.Base Model.Ellipsis Model.Checker Model.Parser Model.Text Model.Directive Model.RunLoop Model.Runner Model.Collect Model.FS Spec.ImportResolve Model.Proc Model.Isolation.
 Extraction Language OCaml.
 Extraction "../ocaml/xdmodel_core.ml"
   is_space is_linebreak is_word
@@ -21,4 +21,5 @@ Extraction "../ocaml/xdmodel_core.ml"
   gather listed run_examples exit_status native_verdict pytest_verdict verdict_of_summary
   style_examples contain collect_module google_examples freeform_examples auto_examples
   fs_of_list modname_to_modpath syspath_modname_to_modpath modpath_to_modname split_modpath normalize_modpath resolve_roots
-  ppc_enter ppc_exit run_proc.
+  ppc_enter ppc_exit run_proc
+  hs_init hs_update hget hread run_directives exec_history K_SKIP K_REQUIRES.
